@@ -10,6 +10,7 @@ import (
 	"go/ast"
 	"go/parser"
 	"go/token"
+	"regexp"
 	"sort"
 	"strings"
 )
@@ -102,4 +103,47 @@ func gounionsSkeleton(o *obsResult) string {
 			coqStr(decl.ID), coqStrList(typs), coqStrList(consts), coqList(methods), coqStrList(wrs)))
 	}
 	return "(GuOk " + coqList(out) + ")"
+}
+
+var reRandCall = regexp.MustCompile(`\brand([\pL\pN_]+)\(\)`)
+
+// randdataSkeleton returns the Coq term (rd_obs) for the observed randdata list of a module: the function every
+// declaration defines (its ID) and the functions rand<X>() its text calls, in order
+func randdataSkeleton(o *obsResult) string {
+	g := o.Gen["randdata"]
+	switch g.Outcome {
+	case "diag":
+		return "RdDiag"
+	case "crash":
+		return "RdCrash"
+	case "ok":
+	default:
+		return "RdSkip"
+	}
+	d := o.Gen["decls"]
+	if d.Outcome != "ok" {
+		return "RdSkip"
+	}
+	var lists map[string][]c19decl
+	if err := json.Unmarshal([]byte(d.Text), &lists); err != nil {
+		return "RdSkip"
+	}
+	l, ok := lists["randdata"]
+	if !ok {
+		return "RdSkip"
+	}
+	var out []string
+	for _, decl := range l {
+		if decl.ID == "__header" {
+			continue
+		}
+		body := strings.Replace(decl.Content, "func rand"+decl.ID+"()", "", 1)
+		var calls []string
+		for _, m := range reRandCall.FindAllStringSubmatch(body, -1) {
+			calls = append(calls, m[1])
+		}
+		defines := strings.Contains(decl.Content, "func rand"+decl.ID+"()")
+		out = append(out, fmt.Sprintf("{| ro_id := %s; ro_defines := %s; ro_calls := %s |}", coqStr(decl.ID), coqBool(defines), coqStrList(calls)))
+	}
+	return "(RdOk " + coqList(out) + ")"
 }
